@@ -263,6 +263,11 @@ func (g *G) keyNode(e ent) *yaml.Node {
 	case 1:
 		st = yaml.SingleQuotedStyle
 	}
+	if e.key == "<<" && st == 0 {
+		// yaml.v3's emitter writes a !!str "<<" key plain (it would read back as a merge key):
+		// the INPUT document must quote it
+		st = yaml.DoubleQuotedStyle
+	}
 	return Scalar("!!str", e.key, st)
 }
 
@@ -341,7 +346,7 @@ var rawKeys = []struct{ text, canon string }{{"12", "12"}, {"0x10", "16"}, {"tru
 // newKey returns an unused key (by canonical form) for a mapping whose used
 // keys are in used; excl holds names that must not be generated at all.
 func (g *G) newKey(role string, used map[string]bool, excl map[string]bool) (ent, bool) {
-	for try := 0; try < 8; try++ {
+	for try := 0; try < 12; try++ {
 		var e ent
 		switch g.intn("keykind", 0, 9) {
 		case 0, 1, 2, 3:
@@ -354,14 +359,15 @@ func (g *G) newKey(role string, used map[string]bool, excl map[string]bool) (ent
 			used[r.canon] = true
 			return ent{key: r.text, raw: true}, true
 		case 5:
-			e.key = fmt.Sprintf("x%d", g.intn("xn", 0, 30))
+			e.key = fmt.Sprintf("x%d", g.intn("xn", 0, 120))
 		default:
 			e.key = g.s(role)
 		}
 		if e.key == "" && !g.C.EmptyKey {
 			continue
 		}
-		if e.key == "<<" && !g.C.MergeKeyStr {
+		if e.key == "<<" && (!g.C.MergeKeyStr || !g.coin("keepmergekey", 6)) {
+			// the key "<<" switches a document's YAML output leg off while F9 is listed: keep it rare
 			continue
 		}
 		if len(e.key) > MaxKeyLen {
@@ -380,6 +386,11 @@ func (g *G) mapSize(label string, small int) int {
 	oneIn := g.C.BigMapOneIn
 	if oneIn < 2 {
 		oneIn = 6
+	}
+	if g.C.BigMaps && g.coin(label+"wide", 150) {
+		// beyond 64 entries (bitsets, small-array fast paths and the like have their thresholds there)
+		g.feat("widemap")
+		return g.intn(label+"wn", 65, 80)
 	}
 	if g.C.BigMaps && g.coin(label+"big", oneIn) {
 		g.feat("bigmap")
